@@ -75,6 +75,8 @@ func runC10(c *Ctx) {
 	c.rule("anon-unset-total", "the anonymous-flatten unmangler clears its all-fields-nil flag for a value of a nil-able kind {Ptr, Slice, Map, Interface, Chan} only under a test that the value is not nil/zero", 1)
 	c.rule("either-or", "(shared with C14) AliasMangler.Unmangle: both-set error exactly when both copies are set; values returned from the scan were tested set", 3)
 	c.rule("nil-test-total", "(shared with C14) every 'is set' test in AliasMangler.Unmangle goes through one kind-total predicate", 2)
+	c.rule("set-guard", "(shared with C16) every reflect Set / Append / SetMapIndex on the way back is type-tied to its destination", 15)
+	c.rule("convert-guard", "(shared with C16) every reflect Convert on the way back is guarded by ConvertibleTo of the same pair or is convertible by construction (a panic while reversing loses the written value)", 8)
 	c.rule("unset-stays-unset", "every Unmangle that parses or converts does so only after a nil test of its input that returns the zero of the original field type", 3)
 	c.rule("should-recurse-table", "ShouldRecurse is a constant per mangler: false for the flattening mangler (it walks nested structs itself), true for all others", 9)
 
@@ -94,6 +96,7 @@ func runC10(c *Ctx) {
 	c10Implements(c)
 	c10FlattenFlag(c)
 	c10NonNil(c)
+	c16SetConvert(c, newKindCtx(c.W))
 	c10ZeroOnlyUnset(c)
 	c10AnonUnsetTotal(c)
 	c16AnonStructOnly(c, "anon-struct-only")
